@@ -40,7 +40,9 @@ var strPool = []struct {
 // abstract JSON constructors
 func jNull() rec        { return rec{"k": "null"} }
 func jBool(b bool) rec  { return rec{"k": "bool", "b": b} }
-func jNum(n int) rec    { return rec{"k": "num", "n": n} }
+// numbers are atoms for the reference: their JSON text
+func jNum(n int) rec     { return rec{"k": "num", "n": fmt.Sprint(n)} }
+func jNumS(t string) rec { return rec{"k": "num", "n": t} }
 func jStr(i int) rec    { return rec{"k": "str", "s": strPool[i].s, "validrid": strPool[i].valid} }
 func jArr(a ...rec) rec { return rec{"k": "arr", "a": append([]rec{}, a...)} }
 func jObj(m ...[]interface{}) rec {
@@ -207,9 +209,27 @@ func Run(c *core.Ctx) {
 		cls, rid := classifyReal(txt)
 		recs = append(recs, rec{"op": "classify", "j": j, "cls": cls, "rid": rid, "dbg": txt})
 	}
+	// numbers that differ only beyond what a float64 holds, alone and inside data values
+	near := [][2]string{{"9007199254740993", "9007199254740992"}, {"0.1", "0.10000000000000000001"}, {"123456789012345678901", "123456789012345678902"}, {"1", "1"}}
+	var nearPairs [][2]int
+	for _, np := range near {
+		for _, wrap := range []func(rec) rec{
+			func(x rec) rec { return x },
+			func(x rec) rec { return jObj([]interface{}{"data", jObj([]interface{}{"v", x})}) },
+			func(x rec) rec { return jObj([]interface{}{"data", jArr(jNum(1), x)}) },
+			func(x rec) rec { return jObj([]interface{}{"data", x}) },
+		} {
+			vals = append(vals, wrap(jNumS(np[0])), wrap(jNumS(np[1])))
+			texts = append(texts, text(vals[len(vals)-2], rng), text(vals[len(vals)-1], rng))
+			nearPairs = append(nearPairs, [2]int{len(vals) - 2, len(vals) - 1})
+		}
+	}
 	// (2) equality on pairs
-	for i := 0; i < c.Pick(1500, 30000); i++ {
+	for i := 0; i < c.Pick(1500, 30000)+len(nearPairs); i++ {
 		a, b := rng.Intn(len(vals)), rng.Intn(len(vals))
+		if i < len(nearPairs) {
+			a, b = nearPairs[i][0], nearPairs[i][1]
+		}
 		if rng.Intn(4) == 0 {
 			b = a
 		}
